@@ -13,7 +13,7 @@ theorem loop_rest (i : Bytes) :
           a ∈ n.toList ++ q) ∧
       ((loop P F i fuel x s m o n q).2.1.toList ++ (loop P F i fuel x s m o n q).2.2).length
           ≤ (n.toList ++ q).length ∧
-      (0 < fuel → x < P → q ≠ [] → s = 0 →
+      (0 < fuel → x < P → q ≠ [] → s = 0 → Flag.len o.flags = 0 →
         ((loop P F i fuel x s m o n q).2.1.toList ++ (loop P F i fuel x s m o n q).2.2).length
           < (n.toList ++ q).length) := by
   intro fuel
@@ -29,24 +29,29 @@ theorem loop_rest (i : Bytes) :
       obtain ⟨n1, q1⟩ := nq
       simp only at hin ⊢
       have hlen : (n.toList ++ q).length = q1.length + 1 := by rw [hin]; simp
+      by_cases hkey : hasFlag n1.flags Facts.flagCrypt = true ∧ Flag.len o.flags > 0
+      · rw [if_pos hkey]
+        refine ⟨fun a ha => by rw [hin]; simpa using ha, by simp [hlen], fun _ _ _ _ hl0 => ?_⟩
+        have := hkey.2; omega
+      rw [if_neg hkey]
       by_cases hnop : elide i s m n1 = true
       · rw [if_pos hnop]
         obtain ⟨h1, h2, _⟩ := ih (x + 1) s m o none q1 (Or.inl rfl)
         rw [show (none : Option Pkt).toList = [] from rfl, List.nil_append] at h1 h2
         refine ⟨fun a ha => by rw [hin]; exact List.mem_cons_of_mem _ (h1 a ha), by omega,
-          fun _ _ _ _ => by omega⟩
+          fun _ _ _ _ _ => by omega⟩
       · rw [if_neg hnop]
         by_cases hfit : s > 0 ∧ s + Packet.size n1 > F
         · rw [if_pos hfit]
-          refine ⟨fun a ha => by rw [hin]; simpa using ha, by simp [hlen], fun _ _ _ hs => by omega⟩
+          refine ⟨fun a ha => by rw [hin]; simpa using ha, by simp [hlen], fun _ _ _ hs _ => by omega⟩
         · rw [if_neg hfit]
           obtain ⟨h1, h2, _⟩ := ih (x + 1) (s + Packet.size n1) (packOne i m o n1).2 (packOne i m o n1).1
             none q1 (Or.inl rfl)
           rw [show (none : Option Pkt).toList = [] from rfl, List.nil_append] at h1 h2
           refine ⟨fun a ha => by rw [hin]; exact List.mem_cons_of_mem _ (h1 a ha), by omega,
-            fun _ _ _ _ => by omega⟩
+            fun _ _ _ _ _ => by omega⟩
     · rw [if_neg hcond]
-      refine ⟨fun a ha => ha, Nat.le_refl _, fun _ hx hq _ => absurd ⟨hx, hq⟩ hcond⟩
+      refine ⟨fun a ha => ha, Nat.le_refl _, fun _ hx hq _ _ => absurd ⟨hx, hq⟩ hcond⟩
 
 end
 end XMT.Batch
@@ -90,7 +95,10 @@ theorem nextPacket_rest (hP2 : 2 ≤ P) (i : Bytes) (t : List Nat) (n : Option P
     rw [if_neg (by omega)]
     obtain ⟨h1, _, h3⟩ := loop_rest P F i (P + 1) 0 0 false (emptyBatch i Facts.flagMulti) n (h :: tl)
       (Or.inr (by simp))
-    exact ⟨h1, h3 (by omega) (by omega) (by simp) rfl⟩
+    have hl0 : Flag.len (emptyBatch i Facts.flagMulti).flags = 0 := by
+      show Flag.len Facts.flagMulti = 0
+      rw [flagsOK.multi]; decide
+    exact ⟨h1, h3 (by omega) (by omega) (by simp) rfl hl0⟩
 
 /-- **`Session.next`, one call** (no abandoned group pending): nothing to send only when there is
 nothing left; otherwise what the peer unpacks from the transmission followed by what the session
